@@ -194,14 +194,46 @@ func c19DecodedInOrder(c *Ctx, call *Term) bool {
 	ps, _ := exec(c, fn, nil, 1)
 	good := false
 	for _, p := range ps {
-		if p.RetNil(len(p.RetT)-1) == -1 && len(p.Calls()) < 2 {
-			continue
-		}
 		var decs []*Term
 		for _, e := range p.Calls() {
 			if e.Call.Op == "call" && strings.HasSuffix(e.Call.Sym, "DecodeFloat64LE") {
 				decs = append(decs, e.Call)
 			}
+		}
+		if p.RetNil(len(p.RetT)-1) == -1 && len(decs) < 2 {
+			continue // the first decode failed: its error path
+		}
+		if len(decs) == 0 && len(p.RetT) >= 2 {
+			// both floats read at once from a buffer known to hold 16 bytes: frombits(LE.Uint64(buf)) and
+			// frombits(LE.Uint64(buf[8:])), cursor advanced by 16
+			le := func(t *Term, off string) bool {
+				if !(t.Op == "call" && t.Sym == "math.Float64frombits" && t.Args[0].Op == "call" && strings.HasSuffix(t.Args[0].Sym, "littleEndian).Uint64")) {
+					return false
+				}
+				src := t.Args[0].Args[len(t.Args[0].Args)-1]
+				if off == "0" {
+					return src.Op == "load" || src.Op == "slice" && (src.Args[1].Op == "none" || src.Args[1].isConst("0"))
+				}
+				return src.Op == "slice" && src.Args[1].isConst(off)
+			}
+			adv := false
+			for _, e := range p.Effects {
+				if e.Kind == "store" && e.Addr.isParam(0) && e.Val.Op == "slice" && e.Val.Args[1].isConst("16") {
+					adv = true
+				}
+			}
+			guard := false
+			for _, cd := range p.Conds {
+				t := cd.Term
+				if t.isBin("<=") && t.Args[0].isConst("16") && t.Args[1].Op == "builtin" && t.Args[1].Sym == "len" && cd.Taken || t.isBin("<") && t.Args[0].Op == "builtin" && t.Args[0].Sym == "len" && t.Args[1].isConst("16") && !cd.Taken {
+					guard = true
+				}
+			}
+			if le(p.RetT[0], "0") && le(p.RetT[1], "8") && adv && guard && p.RetNil(len(p.RetT)-1) == 1 {
+				good = true
+				continue
+			}
+			return false
 		}
 		if len(decs) != 2 {
 			return false
